@@ -127,7 +127,9 @@ Definition minion_path (i : ingress) (s : mstate) (p : string) : mstate :=
   match lookup p (ms_paths s) with
   | None => mkMS (insert p (mk, i_meta i) (ms_paths s)) (vp_set mk p true (ms_vp s)) (ms_cw s)
   | Some holder =>
-      if negb (wins (snd holder) (i_meta i)) then
+      (* the same minion lists the path again: nothing happens *)
+      if String.eqb (fst holder) mk then s
+      else if negb (wins (snd holder) (i_meta i)) then
         mkMS (insert p (mk, i_meta i) (ms_paths s))
              (vp_set (fst holder) p false (vp_set mk p true (ms_vp s)))
              (cw_add (fst holder) (path_warning p) (ms_cw s))
